@@ -167,7 +167,10 @@ def main(argv):
     ap.add_argument('-j', type=int, default=int(os.environ.get('VERIF_JOBS', '14')))
     ap.add_argument('-v', action='store_true')
     ap.add_argument('--no-evidence', action='store_true')
+    ap.add_argument('--only-files', help='comma-separated /repo/htp file names: run only the units that compile one of them (used for seeded changes; implies --no-evidence)')
     a = ap.parse_args(argv)
+    if a.only_files:
+        a.no_evidence = True
     seed = int(os.environ.get('VERIF_SEED', '0') or 0)
 
     if a.replay:
@@ -198,6 +201,9 @@ def main(argv):
                 except OSError:
                     tm = {}
                 sel = [u for u in sel if tm.get(u['name'], 0) <= 25 or u['name'] in ('htp_connp_req_data', 'htp_connp_res_data')]
+    if a.only_files:
+        touched = set(a.only_files.split(','))
+        sel = [u for u in sel if touched & set(list(u.get('src') or []) + list(u.get('link') or []))]
     prop = a.prop or (sel[0]['props'][0] if sel else '?')
     t0 = time.time()
     # known findings that are carved out of a unit by a macro are re-confirmed on every run: the same unit is run once more
@@ -222,6 +228,8 @@ def main(argv):
             pu['probe_of'] = k
             pu['min_obl'] = 1
             probes.append(pu)
+        if a.only_files:
+            probes = [u for u in probes if touched & set(list(u.get('src') or []) + list(u.get('link') or []))]
         sel = sel + probes
     results = []
     with cf.ThreadPoolExecutor(max_workers=a.j) as ex:
